@@ -24,7 +24,8 @@ pub enum AStep {
     /// relative to the start of the incarnation
     SleepUntil { at: u64 },
     /// inner: 0 = sleep(d2), 1 = ready, 2 = never; `at` = use timeout_at(now + d, ..)
-    Timeout { d: u64, inner: u8, d2: u64, #[serde(default)] at: bool },
+    /// `at`: `timeout_at(now + d, ..)`; `at` and `back`: `timeout_at(now - d, ..)`, a deadline that has passed already
+    Timeout { d: u64, inner: u8, d2: u64, #[serde(default)] at: bool, #[serde(default)] back: bool },
     Select { ds: Vec<u64> },
     /// pinned sleep(d0), optionally polled once, then reset to now + d1 and awaited
     Reset { d0: u64, d1: u64, poll_first: bool },
@@ -180,10 +181,11 @@ async fn run_task(m: usize, ti: usize, inc: u16, start_ns: u64, spec: TaskSpec, 
                 sleep_until(SimTime::from_duration(Duration::from_nanos(start_ns + at))).await;
                 log(si, T_DONE, 0);
             }
-            AStep::Timeout { d, inner, d2, at } => {
+            AStep::Timeout { d, inner, d2, at, back } => {
                 let dur = huge_duration(*d);
                 let ok = if *at && *d < u64::MAX - 2 {
-                    let dl = SimTime::now() + dur;
+                    let now = SimTime::now();
+                    let dl = if *back && now.as_nanos() >= u128::from(*d) { SimTime::from_duration(*now - dur) } else { now + dur };
                     match inner % 3 {
                         0 => des::time::timeout_at(dl, sleep(Duration::from_nanos(*d2))).await.is_ok(),
                         1 => des::time::timeout_at(dl, std::future::ready(())).await.is_ok(),
@@ -218,7 +220,7 @@ async fn run_task(m: usize, ti: usize, inc: u16, start_ns: u64, spec: TaskSpec, 
                 log(si, T_BRANCH + branch, 0);
             }
             AStep::Reset { d0, d1, poll_first } => {
-                let s = sleep(Duration::from_nanos(*d0));
+                let s = sleep(huge_duration(*d0));
                 tokio::pin!(s);
                 if *poll_first {
                     // poll once so that the timer is registered, then leave through the ready branch
@@ -437,7 +439,10 @@ pub fn evaluate(tasks: &[TaskSpec], start: u64, ext: &[(u64, usize)]) -> Vec<Exp
                                 s.pc += 1;
                             }
                         }
-                        AStep::Timeout { d, inner, d2, .. } => {
+                        AStep::Timeout { d, inner, d2, at, back } => {
+                            // a deadline that has passed already: the inner future is polled once, then the time-out elapses
+                            // (decided when the step starts, not when the evaluation comes back to it at its completion)
+                            let d = if at && back && s.sub == 0 && d < u64::MAX - 2 && now >= d { 0 } else { d };
                             // inner result iff the inner future completes no later than the deadline
                             let (dt, code) = match inner % 3 {
                                 0 => {
@@ -806,14 +811,15 @@ fn gen_timer_step(rng: &mut Rng) -> AStep {
         }
         0 | 1 => AStep::Sleep { d: d(rng) },
         2 => AStep::SleepUntil { at: d(rng) * rng.below(4) },
-        3 | 4 if rng.chance(1, 12) => AStep::Timeout { d: u64::MAX - rng.below(3), inner: rng.below(2) as u8, d2: d(rng), at: false },
-        3 | 4 => AStep::Timeout { d: d(rng), inner: rng.below(3) as u8, d2: d(rng), at: rng.chance(1, 3) },
+        3 | 4 if rng.chance(1, 12) => AStep::Timeout { d: u64::MAX - rng.below(3), inner: rng.below(2) as u8, d2: d(rng), at: false, back: false },
+        3 | 4 if rng.chance(1, 10) => AStep::Timeout { d: 1 + d(rng), inner: rng.below(3) as u8, d2: d(rng), at: true, back: true },
+        3 | 4 => AStep::Timeout { d: d(rng), inner: rng.below(3) as u8, d2: d(rng), at: rng.chance(1, 3), back: false },
         5 | 6 => {
             let n = 2 + rng.below(2) as usize;
             let base = d(rng);
             AStep::Select { ds: (0..n).map(|_| if rng.chance(1, 3) { base } else { d(rng) }).collect() }
         }
-        7 | 8 => AStep::Reset { d0: d(rng), d1: d(rng), poll_first: rng.chance(2, 3) },
+        7 | 8 => AStep::Reset { d0: if rng.chance(1, 4) { u64::MAX } else { d(rng) }, d1: d(rng), poll_first: rng.chance(2, 3) },
         _ => {
             let period = 20 * MS * (1 + rng.below(5));
             let work = match rng.below(6) {
@@ -856,6 +862,15 @@ pub fn gen_c05(rng: &mut Rng, tier: Tier) -> NetProgram {
         prog.modules.push(spec);
     }
     prog.order = (0..nmod as u32).collect();
+    // sleeps of months and years (the calendar queue gets buckets of an hour so that the run can get there)
+    if rng.chance(1, 30) {
+        prog.n = 1024;
+        prog.t_ns = 3_600_000 * MS;
+        let year = 31_536_000_000 * MS;
+        let d = *rng.pick(&[year / 12, year, 2 * year, 2 * year + year / 5, 3 * year, 10 * year]) + rng.below(1000);
+        let v = rng.usize(nmod);
+        prog.modules[v].tasks.push(TaskSpec { local: rng.chance(1, 3), join: 1, steps: vec![AStep::Sleep { d }, AStep::Sleep { d: MS }] });
+    }
     prog
 }
 
@@ -1049,7 +1064,7 @@ pub fn gen_tasks_c20(rng: &mut Rng) -> Vec<TaskSpec> {
         let steps = match rng.below(4) {
             0 => vec![AStep::Sleep { d: 100_000 * MS }],           // blocked on a timer when the run stops
             1 => vec![AStep::Wait],                                // blocked on a receive forever
-            2 => vec![AStep::Sleep { d: 300 * MS }, AStep::Timeout { d: 50_000 * MS, inner: 2, d2: 0, at: false }],
+            2 => vec![AStep::Sleep { d: 300 * MS }, AStep::Timeout { d: 50_000 * MS, inner: 2, d2: 0, at: false, back: false }],
             _ => (0..1 + rng.small(4)).map(|_| AStep::Sleep { d: 200 * MS }).collect(),
         };
         v.push(TaskSpec { local: rng.chance(1, 3), join: 0, steps });
